@@ -280,6 +280,21 @@ def check_props(ctx, relpath=None, flags_bridge=False):
             ctx.axioms[n] = sorted({a or c for a, c in ax} - {'Axioms'})
     else:
         ctx.violation('proof', relpath, 'coqc', 'property file', dict(stderr=err[-3000:]), theorem=failing or relpath)
+    if ok and ctx.tier == 'thorough' and relpath.startswith('theories/'):
+        # independent re-check of the compiled property file and everything it depends on
+        mod = 'Pymoto.' + relpath[len('theories/'):-2].replace('/', '.')
+        try:
+            r = subprocess.run(['timeout', '1500', 'coqchk', '-silent', '-o', '-R', os.path.join(COQ, 'theories'), 'Pymoto', mod],
+                               capture_output=True, text=True, cwd=COQ)
+            okc = r.returncode == 0
+            txt = r.stdout + r.stderr
+            ax = re.findall(r'^\s{4}([A-Za-z_][\w.]*)\s*$', txt.split('* Axioms:')[-1].split('* Constants')[0], re.M) if '* Axioms:' in txt else []
+            ctx.axioms['coqchk:' + mod] = ax
+            ctx.obligation('coqchk -o ' + mod, 'coqchk', okc, '' if okc else txt[-1500:])
+            if not okc:
+                ctx.violation('proof', relpath, 'coqchk', 'property file', dict(output=txt[-3000:]), theorem='coqchk ' + mod)
+        except Exception as e:  # pragma: no cover
+            ctx.obligation('coqchk -o ' + mod, 'coqchk', False, repr(e))
     return ok
 
 
